@@ -263,9 +263,33 @@ def hunt(ctx, make_test, seed, max_examples, shrink=True, max_root_causes=None):
                 return found
         except (FailedHealthCheck, Unsatisfiable) as e:
             raise HarnessError("generator health check: %r" % (e,))
-        except hypothesis.errors.FlakyFailure as e:  # pragma: no cover
-            raise HarnessError("flaky property (state leaks between cases?): %r" % (e,))
+        except hypothesis.errors.FlakyFailure as e:
+            # the oracle failed on a generated case and passed when Hypothesis ran the same case again: something outside
+            # the case decided.  The harness starts every case cold from what it knows of the library's state; state the
+            # tree keeps elsewhere (a new class-level memo, say) survives between cases.  The violation that was observed
+            # is reported as it was seen (unshrunk); only when none can be found in the report is it a harness error.
+            seen = _find_viol(e)
+            if seen is None:
+                raise HarnessError("flaky property (state leaks between cases?): %r" % (e,))
+            found += 1
+            ctx.violations.setdefault(seen.key, {"case": jsonable(seen.case), "msg": (str(seen.msg) + " [seen once; the same case passed when it was run again in the same process: the outcome depends on earlier cases]")[:2000]})
+            ctx.suppressed.add(seen.key)
+            if ctx.out_of_time():
+                return found
     return found
+
+
+def _find_viol(exc, depth=0):
+    """the first Viol inside an exception group / cause chain (Hypothesis wraps flaky failures in groups)"""
+    if isinstance(exc, Viol):
+        return exc
+    if depth > 6 or exc is None:
+        return None
+    for sub in list(getattr(exc, "exceptions", ()) or ()) + [getattr(exc, "__cause__", None), getattr(exc, "__context__", None)]:
+        v = _find_viol(sub, depth + 1)
+        if v is not None:
+            return v
+    return None
 
 
 def tree_frame(exc):
